@@ -1610,28 +1610,38 @@ enum AttributeTarget {
     Field,
 }
 
-fn has_deprecated<'a>(attrs: impl IntoIterator<Item = &'a Attribute>) -> bool {
-    attrs.into_iter().any(|a| a.path().is_ident("deprecated"))
+fn is_lint_attr(a: &Attribute) -> bool {
+    ["allow", "warn", "deny", "forbid", "expect"]
+        .iter()
+        .any(|name| a.path().is_ident(name))
 }
-/// `#[allow(deprecated)]` for the impls of an item that marks itself or one of its fields as deprecated
+fn has_deprecated<'a>(attrs: impl IntoIterator<Item = &'a Attribute>) -> bool {
+    // `#[deprecated]` itself, or a lint attribute of the user that names `deprecated` (e.g. on a field of a deprecated type)
+    attrs.into_iter().any(|a| {
+        a.path().is_ident("deprecated")
+            || ((a.path().is_ident("allow") || a.path().is_ident("expect"))
+                && a.meta.to_token_stream().to_string().contains("deprecated"))
+    })
+}
+/// Lint attributes for the generated impls: the item's own lint attributes are carried over, as the standard derives do,
+/// and `#[allow(deprecated)]` is added for an item that marks itself or one of its fields as deprecated
 /// (the impls have to mention them).
-pub(super) fn allow_deprecated_for_struct(item: &ItemStruct) -> TokenStream {
-    if has_deprecated(
-        item.attrs
-            .iter()
-            .chain(item.fields.iter().flat_map(|f| &f.attrs)),
-    ) {
-        quote!(#[allow(deprecated)])
-    } else {
-        quote!()
+fn lint_attrs_for_impls<'a>(
+    item_attrs: &'a [Attribute],
+    inner_attrs: impl IntoIterator<Item = &'a Attribute>,
+) -> TokenStream {
+    let lints = item_attrs.iter().filter(|a| is_lint_attr(a));
+    let mut ts = quote!(#(#lints)*);
+    if has_deprecated(item_attrs.iter().chain(inner_attrs)) {
+        ts.extend(quote!(#[allow(deprecated)]));
     }
+    ts
+}
+pub(super) fn allow_deprecated_for_struct(item: &ItemStruct) -> TokenStream {
+    lint_attrs_for_impls(&item.attrs, item.fields.iter().flat_map(|f| &f.attrs))
 }
 pub(super) fn allow_deprecated_for_enum(item: &ItemEnum) -> TokenStream {
     let vs = item.variants.iter();
     let in_variants = vs.flat_map(|v| v.attrs.iter().chain(v.fields.iter().flat_map(|f| &f.attrs)));
-    if has_deprecated(item.attrs.iter().chain(in_variants)) {
-        quote!(#[allow(deprecated)])
-    } else {
-        quote!()
-    }
+    lint_attrs_for_impls(&item.attrs, in_variants)
 }
